@@ -26,16 +26,17 @@ n = len(names)
 own = sum(1 for d in names if json.load(open(os.path.join(V, 'seeded', d, 'meta.json'))).get('checks', {}).get(json.load(open(os.path.join(V, 'seeded', d, 'meta.json'))).get('property'), {}).get('exit') == 1)
 intro = '''## Appendix G - seeded changes and which checks report them
 
-%d breaking changes are stored: four per property written by independent sub-agents (`-a`: first round; `-b`, `-c`, `-e`:
-second to fourth round, each told the ideas of the earlier rounds) and two self-made probes (`-d`) for clauses no sub-agent change
-had reached. Each agent saw only the text of its property and a scratch git worktree of `/repo` (nothing from `/verif`) and was
+%d breaking changes are stored: five per property written by independent sub-agents (`-a`: first round; `-b`, `-c`, `-e`, `-f`:
+second to fifth round, each told the ideas of the earlier rounds), 18 more of a sixth round (`-g`) and two self-made probes (`-d`)
+for clauses no sub-agent change had reached. Each agent saw only the text of its property and a scratch git worktree of `/repo` (nothing from `/verif`) and was
 asked for a realistic change that passes the 333 tests but breaks the property and needs something specific to manifest. I
 confirmed each one myself in a scratch worktree (suite green with the change; the demonstration fails with it and passes without
 it) before keeping it under `seeded/<name>/` (`patch.diff`, `demo.py`, `meta.json`). `tools/rerun_seeded.py` re-applies every
 stored change to a fresh worktree of the current `/repo` HEAD and runs the checks with `VERIF_REPO=<worktree>`; nothing is ever
 applied to `/repo` itself. At the last full re-run %d of %d are reported by the check of their own property (%d retired: a later repair removed what it relied on). In the third and
-fourth round 8 of the 19 changes each were silent at first; `needs` names what was added to the specification or the inputs for
-each (section 0.8); no oracle was weakened. Eight patches were re-written after `fix:` commits changed the lines they touch.
+fourth round 8 of the 19 changes each were silent at first, in the fifth 7 of 19, in the sixth 5 of 18; `needs` names what was
+added to the specification or the inputs for each (section 0.8); no oracle was weakened. A dozen patches were re-written after
+`fix:` commits changed the lines they touch (`rebased` in their `meta.json`).
 
 | name | property | change | needs (to manifest) / what was added | reported by (first clause) | run but silent |
 |---|---|---|---|---|---|
